@@ -206,3 +206,8 @@ CORPUS_C01: list = []
 
 PROP = Prop()
 CORPUS = mut.CORPUS + CORPUS_C01
+
+import parts  # noqa: E402
+import parts_misc  # noqa: E402
+
+parts.attach(PROP, parts_misc.REMOVED, parts_misc.SELFCHECK)   # removed nodes are inert; Tree._self_check (models Forest/MiscRemoved.v, Mut/MiscSelfCheck.v; theorems at the end of Properties/C01.v)
